@@ -646,10 +646,11 @@ class Expander:
                 spec["desugar_try"] = True
             elif k == "desugar_for":
                 spec["desugar_for"] = True
-            elif k == "hint":
+            elif k in ("hint", "hint?"):
                 # hint <n> <regex>   + block: proof text (asserts only) spliced before the n-th match of regex in the body
+                # `hint?`: skipped when the anchor is gone (the code is then checked without it)
                 parts = w[1].split(None, 1)
-                spec.setdefault("hints", []).append((int(parts[0]), parts[1].strip(), raw_block(c)))
+                spec.setdefault("hints", []).append((int(parts[0]), parts[1].strip(), raw_block(c), k == "hint?"))
             elif k == "rename_ident":
                 a, b = split_sub(w[1])
                 spec.setdefault("renames", []).append((a, b))
@@ -845,7 +846,7 @@ class Expander:
                         raise LostAnchor("%s: cannot desugar `?` in %s: %s" % (rel, fnid, e))
                     cnt += n
             self.rewrites.append("%s: %d `?` in %s desugared to match/return Err(From::from(e)) (rustc's own desugaring for Result)" % (rel, cnt, fnid))
-        for nth, pat, block in spec.get("hints", []):
+        for nth, pat, block, hint_optional in spec.get("hints", []):
             if re.search(r"\b(assume|admit)\s*\(", block):
                 raise ValueError("%s: hint for %s contains assume/admit" % (self.tmpl_path, fnid))
             seen = 0
@@ -861,6 +862,8 @@ class Expander:
                         break
                 if done:
                     break
+            if not done and hint_optional:
+                continue
             if not done:
                 # the anchor is gone: the code is checked without the hint (may then fail to verify => undecided? no: a
                 # missing hint can only make a proof fail, which would be reported as a violation; so refuse instead)
